@@ -15,7 +15,8 @@ configurations, with and without the NV transpiler:
   `(runOps c St.init ops).2.fatal = false ∧ Inv c (runOps c St.init ops).1`.
 The code violates it in four ways (open findings, counter-examples proved below):
   F12 context blocks and F29 sequential keeps never release their handles' ids,
-  F28 NV multi-pair keep asserts when an id in 1..n-1 is taken,
+  F28 NV multi-pair keep asserts when an id in 1..n-1 is taken (`nvKeepOk` is exactly the
+      negation of that situation, so every other NV keep is inside the proved part),
   F30 the NV transpiler's carbon–carbon gates use virtual qubit 0 even if it is not allocated,
 and NV non-sequential context blocks with more than one pair pre-allocate the ids the pairs are
 to be delivered into (covered by the F12 hypothesis).  `good` spells out the hypotheses.
@@ -131,6 +132,13 @@ example : good ⟨true, true, 3⟩ St.init
     [.new, .keep false 1, .gate2 0 1, .meas 0 false, .gate 1, .flush] = true := by decide
 example : good ⟨false, false, 2⟩ St.init
     [.keep false 2, .free 0, .new, .meas 1 false, .new, .flush, .gate2 2 3, .flush] = true := by decide
+example : good ⟨true, false, 5⟩ St.init
+    [.keep true 3, .gate2 0 2, .meas 1 false, .flush, .keep false 2, .flush, .close] = true := by decide
+/-- NV keep of three pairs: memory ids 2 and 1 are allocated, each pair arrives in id 0 and all
+but the last are moved -/
+example : ((runOps ⟨true, false, 5⟩ St.init [.keep true 3]).1.evs
+    = [.alloc 2, .use 2, .alloc 1, .use 1, .deliver 0, .use2 0 2, .free 0, .deliver 0, .use2 0 1,
+       .free 0, .deliver 0]) := by decide
 /-- the peephole really fires in the first example: after `new; new; meas 1` on NV the
 allocation of handle 0 has been re-addressed to id 2 -/
 example : ((runOps ⟨true, false, 5⟩ St.init [.new, .new, .meas 1 false]).1.evs
